@@ -40,6 +40,9 @@ WF = [
     f"self._extent is None or (len(self._extent) == {D} and forall(lambda i: self._extent[i] > 0, 0, {D}))",
     f"self._sampling is None or (len(self._sampling) == {D} and forall(lambda i: self._sampling[i] > 0, 0, {D}))",
     f"self._gpts is None or (len(self._gpts) == {D} and forall(lambda i: self._gpts[i] - {E} >= 1, 0, {D}))",
+    # two defined quantities always determine the third, except that the extent may have been reset to None
+    "self._extent is None or self._sampling is None or self._gpts is not None",
+    "self._extent is None or self._gpts is None or self._sampling is not None",
 ]
 INV = (f"(self._extent is None or self._gpts is None or self._sampling is None) or "
        f"forall(lambda i: self._extent[i] == (self._gpts[i] - {E}) * self._sampling[i], 0, {D})")
@@ -59,7 +62,8 @@ SPECS = {
         requires=WF + [INV, f"len(extent) == {D}", f"forall(lambda i: extent[i] > 0, 0, {D})"],
         may_raise=["RuntimeError"],
         ensures=POST + [
-            ("assigned", f"len(self._extent) == {D} and forall(lambda i: self._extent[i] == extent[i], 0, {D})"),
+            # with a locked sampling the extent is rounded up to a whole number of pixels, otherwise it is taken as given
+            ("assigned", f"self._lock_sampling or (len(self._extent) == {D} and forall(lambda i: self._extent[i] == extent[i], 0, {D}))"),
             ("frame-lock_gpts", f"not self._lock_gpts or {_same('gpts')}"),
             ("frame-lock_sampling", f"not self._lock_sampling or {_same('sampling')}"),
             ("frame-lock_extent", f"not self._lock_extent or {_same('extent')}"),
